@@ -7,7 +7,8 @@ open Lean
 
 def floatScalar : Scalar Float :=
   { zero := 0.0, add := (· + ·), sub := (· - ·), mul := (· * ·), div := (· / ·), pow := Float.pow, sqrt := Float.sqrt,
-    ofNat := Float.ofNat, isFinite := fun x => !(x.isNaN || x.isInf), isNaN := Float.isNaN }
+    ofNat := Float.ofNat, isFinite := fun x => !(x.isNaN || x.isInf), isNaN := Float.isNaN,
+    lt := fun a b => a < b, neg := fun a => -a, ceilNat := fun a => (Float.ceil a).toUInt64.toNat }
 
 def f64OfJson (j : Json) : R Float := do
   let n ← j.getNat?
